@@ -38,6 +38,7 @@ func checkC03(w *World, r *Result) {
 	kindProvenance(w, r, "AGR-C02b", "generator/typescript.codeForUnion", 1)
 	checkTSEnum(w, r)
 	declIDRule(w, r, "generator/typescript")
+	runTPLBalance(w, r, "generator/typescript", 2)
 	tplBalanceFor(w, r, []string{"generator/typescript.codeForEnum", "generator/typescript.codeForStruct", "generator/typescript.codeForUnion", "generator/typescript.codeForNamed", "generator/typescript.codeForArray", "generator/typescript.typeName"})
 }
 
